@@ -366,8 +366,7 @@ def run(ctx):
     need = ['clean-schema-accepted', 'rejected-with-schema-error', 'corruption-breaking', 'corruption-benign', 'rejected-with-model-error',
             'query-terminated', 'signed-rule-pattern-schema-accepted']
     for k in need:
-        if not ctx.events.get(k):
-            ctx.inconclusive(f'{k}: nothing observed')
+        ctx.need_event(k)
     ctx.assumptions = ['documented schema error = SemanticError (from compile_lvs or Checker()), documented model error = LvsModelError',
                        'corruptions outside the six documented sanity rules need not be rejected, but whatever is accepted must terminate',
                        'step budget: 300*(nodes+2)*(len(name)+2)+30000 interpreter events per query (a normal query costs a few hundred), 600*(nodes+2)^2+30000 for loading']
